@@ -367,31 +367,8 @@ var a2Exceptions = map[string]a2Exception{
 		}
 		return true, "C05 holds: units are independent"
 	}},
-	"pkg/gengo/snippet.Args.Args$1|map-range": {"the iterator yields the bindings in map order; its only consumer stores them keyed by name", func(p *core.Program, f *core.Func, os OrderSource) (bool, string) {
-		// every range over a.Args() in scope is a keyed store of (name, snippet)
-		iface := "(" + core.G("pkg/gengo/snippet.TArg") + ").Args"
-		n := 0
-		for _, cs := range callersOf(p, iface, core.G("pkg/gengo/snippet.Args")+".Args") {
-			n++
-			info := cs.In.Info()
-			path := core.PathTo(cs.In.Body, cs.Call)
-			okSite := false
-			for k := len(path) - 1; k >= 0; k-- {
-				if rs, ok := path[k].(*ast.RangeStmt); ok && rs.X == ast.Expr(cs.Call) {
-					sh := rangeBodyShape(info, rs)
-					inj, _ := keyedStoresInjective(info, rs)
-					okSite = sh.KeyedOnly && len(sh.Collected) == 0 && inj
-				}
-			}
-			if !okSite {
-				return false, "a consumer of TArg.Args() in " + cs.In.QName() + " does more than a keyed store"
-			}
-		}
-		if n == 0 {
-			return false, "no consumer of TArg.Args() found"
-		}
-		return true, fmt.Sprintf("%d consumer(s), all keyed stores", n)
-	}},
+	"pkg/gengo/snippet.Args.Args$1|map-range": {"the iterator yields the bindings in map order; its only consumer stores them keyed by name", sideArgsKeyedOnly},
+	"pkg/gengo/snippet.Args.Args|maps-iter":   {"maps.All(args) yields the bindings in map order; its only consumer stores them keyed by name", sideArgsKeyedOnly},
 	"pkg/types.(*Universe).LocateInPackage|map-range": {"first match on SourceDir(): a find-unique over packages (one package per directory); not on any output path", func(p *core.Program, f *core.Func, os OrderSource) (bool, string) {
 		obj := f.Root().Obj()
 		for _, cs := range allCalls(p) {
@@ -745,3 +722,36 @@ func c04R2(p *core.Program, r *core.Report) {
 		r.Check(strings.HasSuffix(s, ".Module.Path") || strings.HasSuffix(s, ".PkgPath"), rule, load, "entrypoint loop performs a keyed store: "+core.ExprStr(as.Lhs[0]), as.Pos(), "keyed by the package's own (module) path", "the entrypoint loop stores under a key that is not the entrypoint's own path")
 	}
 }
+
+// sideArgsKeyedOnly: every consumer of TArg.Args() only stores the bindings keyed by their name.
+var sideArgsKeyedOnly = func(p *core.Program, f *core.Func, os OrderSource) (bool, string) {
+		// every range over a.Args() in scope is a keyed store of (name, snippet)
+		iface := "(" + core.G("pkg/gengo/snippet.TArg") + ").Args"
+		n := 0
+		for _, cs := range callersOf(p, iface, core.G("pkg/gengo/snippet.Args")+".Args") {
+			n++
+			info := cs.In.Info()
+			path := core.PathTo(cs.In.Body, cs.Call)
+			okSite := false
+			// maps.Insert(dst, a.Args()) is the keyed store of every pair
+			for k := len(path) - 1; k >= 0; k-- {
+				if pc, ok := path[k].(*ast.CallExpr); ok && pc != cs.Call && core.CalleeName(info, pc) == "maps.Insert" && len(pc.Args) == 2 && ast.Unparen(pc.Args[1]) == ast.Expr(cs.Call) {
+					okSite = true
+				}
+			}
+			for k := len(path) - 1; k >= 0; k-- {
+				if rs, ok := path[k].(*ast.RangeStmt); ok && rs.X == ast.Expr(cs.Call) {
+					sh := rangeBodyShape(info, rs)
+					inj, _ := keyedStoresInjective(info, rs)
+					okSite = sh.KeyedOnly && len(sh.Collected) == 0 && inj
+				}
+			}
+			if !okSite {
+				return false, "a consumer of TArg.Args() in " + cs.In.QName() + " does more than a keyed store"
+			}
+		}
+		if n == 0 {
+			return false, "no consumer of TArg.Args() found"
+		}
+		return true, fmt.Sprintf("%d consumer(s), all keyed stores", n)
+	}
